@@ -9,6 +9,13 @@
 //! ops file through `Engine::recorded`, so the driver sees them; `exec` ignores any it finds on a
 //! replayed line and records them afresh.
 //!
+//! Besides `NewEpoch` (which makes the collector call itself) the engine sends the collector's own entry
+//! points directly, in mid-history: `collect <h> <t> <sender> <target>` = `CollectFees` and
+//! `aggregate <h> <t> <sender> <target> @outs=… @acc=…` = `AggregateFees`, with `<target>` one of
+//! `vfac` | `pfac` (`Factory`, first page of 30) | `xfac` (the pool factory asked for vaults) |
+//! `pool <k>` | `vault <k>` (`Contracts` naming one pair / vault; `k` out of range = no contract).
+//! The code checks no sender on either: owner, traders, bonders and the stranger all send them.
+//!
 //! The monitors evaluate C09 / C10 as stated on the real observations (balance deltas against ledger
 //! deltas), using only their own bookkeeping (who bonded when, who was paid for which epoch, which epoch
 //! has left the grace window) — never the model.
@@ -180,6 +187,7 @@ struct World {
     dist: Addr,
     lair: Addr,
     fac: Addr,
+    vfac: Addr,
     router: Addr,
     adv: Addr,
     pools: Vec<Addr>,
@@ -491,6 +499,7 @@ impl World {
             dist,
             lair,
             fac,
+            vfac,
             router,
             adv,
             pools,
@@ -512,6 +521,42 @@ impl World {
             "trader" => Some(self.trader.clone()),
             "stranger" => Some(self.stranger.clone()),
             _ => who.strip_prefix('u').and_then(|i| i.parse::<usize>().ok()).and_then(|i| self.users.get(i).cloned()),
+        }
+    }
+
+    /// the `FeesFor` named by the arguments of a direct `collect` / `aggregate` op:
+    /// `vfac` | `pfac` (the factory's first page, as ForwardFees asks) | `xfac` (the pool factory asked
+    /// for vaults) | `pool <k>` | `vault <k>` (`Contracts` naming one pair / vault; `k` out of range
+    /// names an address that is no contract)
+    fn fees_for(&self, args: &[&str]) -> Option<fc::FeesFor> {
+        let idx = |s: Option<&&str>| s.and_then(|x| x.parse::<usize>().ok());
+        let ghost = "nobody".to_string();
+        match (args.first().copied(), args.len()) {
+            (Some("vfac"), 1) => Some(fc::FeesFor::Factory {
+                factory_addr: self.vfac.to_string(),
+                factory_type: fc::FactoryType::Vault { start_after: None, limit: Some(30) },
+            }),
+            (Some("pfac"), 1) => Some(fc::FeesFor::Factory {
+                factory_addr: self.fac.to_string(),
+                factory_type: fc::FactoryType::Pool { start_after: None, limit: Some(30) },
+            }),
+            (Some("xfac"), 1) => Some(fc::FeesFor::Factory {
+                factory_addr: self.fac.to_string(),
+                factory_type: fc::FactoryType::Vault { start_after: None, limit: Some(30) },
+            }),
+            (Some("pool"), 2) => idx(args.get(1)).map(|k| fc::FeesFor::Contracts {
+                contracts: vec![fc::Contract {
+                    address: self.pools.get(k).map(|a| a.to_string()).unwrap_or(ghost),
+                    contract_type: fc::ContractType::Pool {},
+                }],
+            }),
+            (Some("vault"), 2) => idx(args.get(1)).map(|k| fc::FeesFor::Contracts {
+                contracts: vec![fc::Contract {
+                    address: self.vaults.get(k).map(|a| a.to_string()).unwrap_or(ghost),
+                    contract_type: fc::ContractType::Vault {},
+                }],
+            }),
+            _ => None,
         }
     }
 
@@ -619,12 +664,74 @@ impl World {
     }
 }
 
+/// caller classes of the direct collector ops (the collector's code distinguishes none of them)
+fn sender_class(sender: &str) -> &'static str {
+    match sender {
+        "admin" => "owner",
+        "stranger" => "stranger",
+        _ => "user",
+    }
+}
+
 fn out3<T>(o: &Outcome<T>) -> &'static str {
     match o {
         Outcome::Ok(_) => "ok",
         Outcome::Err(_) => "err",
         Outcome::Panic => "panic",
     }
+}
+
+/// swaps in the events of a transaction that ran the collector's aggregation. `direct` = a directly
+/// sent AggregateFees (one pass, stage 0); otherwise a NewEpoch, where the collector executes
+/// 1 ForwardFees, 2-3 CollectFees, 4 AggregateFees(vaults), 5 AggregateFees(pools).
+fn scan_swaps(w: &World, resp: &AppResponse, direct: bool) -> (Vec<SwapEv>, Vec<usize>) {
+    let mut swaps = vec![];
+    let mut stages = vec![];
+    let mut col_exec = 0usize;
+    for ev in &resp.events {
+        let get = |k: &str| ev.attributes.iter().find(|a| a.key == k).map(|a| a.value.clone());
+        let ca = get("_contract_addr").unwrap_or_default();
+        if ev.ty == "execute" && ca == w.col.as_str() {
+            col_exec += 1;
+        }
+        if ev.ty == "wasm" && get("action").as_deref() == Some("swap") {
+            if let Some(pi) = w.pools.iter().position(|pa| pa.as_str() == ca) {
+                let ask = get("ask_asset").unwrap_or_default();
+                let offer = get("offer_asset").unwrap_or_default();
+                let ask_side = if ask == ASSETS[POOLS[pi].0] { 0 } else { 1 };
+                swaps.push(SwapEv {
+                    pool: pi,
+                    ask_side,
+                    offer: ASSETS.iter().position(|d| *d == offer).unwrap_or(9),
+                    to_collector: get("receiver").as_deref() == Some(w.col.as_str()),
+                    ret: get("return_amount").and_then(|x| x.parse().ok()).unwrap_or(0),
+                    pfee: get("protocol_fee_amount").and_then(|x| x.parse().ok()).unwrap_or(0),
+                });
+                stages.push(if direct || col_exec <= 4 { 0 } else { 1 });
+            }
+        }
+    }
+    (swaps, stages)
+}
+
+/// the `@outs` (`stage.asset:router output`, one per swap chain that paid the collector) and `@acc`
+/// (`pool.side:protocol fee accrued by the aggregation swaps`) values of a transaction's swaps
+fn outs_and_acc(swaps: &[SwapEv], stages: &[usize]) -> (String, String) {
+    let mut outs = vec![];
+    let mut acc: BTreeMap<(usize, usize), u128> = BTreeMap::new();
+    let mut chain_start: Option<usize> = None;
+    for (k, s) in swaps.iter().enumerate() {
+        *acc.entry((s.pool, s.ask_side)).or_insert(0) += s.pfee;
+        if chain_start.is_none() {
+            chain_start = Some(s.offer);
+        }
+        if s.to_collector {
+            outs.push(format!("{}.{}:{}", stages[k], chain_start.unwrap(), s.ret));
+            chain_start = None;
+        }
+    }
+    let acc: Vec<String> = acc.iter().filter(|(_, v)| **v > 0).map(|((pi, sd), v)| format!("{pi}.{sd}:{v}")).collect();
+    (join(&outs, ","), join(&acc, ","))
 }
 
 /// swaps seen in the events of a NewEpoch transaction: (pool, ask side, offer asset, receiver, return, protocol fee)
@@ -686,47 +793,12 @@ impl Feeflow {
                 let o = exec(&mut w.app, &sa, &w.dist.clone(), &fd::ExecuteMsg::NewEpoch {}, &[]);
                 if let Outcome::Ok(resp) = &o {
                     // recorded router outputs / fee accruals, from the transaction's events
-                    let mut col_exec = 0usize;
-                    for ev in &resp.events {
-                        let get = |k: &str| ev.attributes.iter().find(|a| a.key == k).map(|a| a.value.clone());
-                        let ca = get("_contract_addr").unwrap_or_default();
-                        if ev.ty == "execute" && ca == w.col.as_str() {
-                            col_exec += 1;
-                        }
-                        if ev.ty == "wasm" && get("action").as_deref() == Some("swap") {
-                            if let Some(pi) = w.pools.iter().position(|pa| pa.as_str() == ca) {
-                                let ask = get("ask_asset").unwrap_or_default();
-                                let offer = get("offer_asset").unwrap_or_default();
-                                let ask_side = if ask == ASSETS[POOLS[pi].0] { 0 } else { 1 };
-                                swaps.push(SwapEv {
-                                    pool: pi,
-                                    ask_side,
-                                    offer: ASSETS.iter().position(|d| *d == offer).unwrap_or(9),
-                                    to_collector: get("receiver").as_deref() == Some(w.col.as_str()),
-                                    ret: get("return_amount").and_then(|x| x.parse().ok()).unwrap_or(0),
-                                    pfee: get("protocol_fee_amount").and_then(|x| x.parse().ok()).unwrap_or(0),
-                                });
-                                // collector executes: 1 ForwardFees, 2-3 CollectFees, 4 AggregateFees(vaults), 5 AggregateFees(pools)
-                                stage_of_swap.push(if col_exec <= 4 { 0 } else { 1 });
-                            }
-                        }
-                    }
-                    let mut outs = vec![];
-                    let mut acc: BTreeMap<(usize, usize), u128> = BTreeMap::new();
-                    let mut chain_start: Option<usize> = None;
-                    for (k, s) in swaps.iter().enumerate() {
-                        *acc.entry((s.pool, s.ask_side)).or_insert(0) += s.pfee;
-                        if chain_start.is_none() {
-                            chain_start = Some(s.offer);
-                        }
-                        if s.to_collector {
-                            outs.push(format!("{}.{}:{}", stage_of_swap[k], chain_start.unwrap(), s.ret));
-                            chain_start = None;
-                        }
-                    }
-                    let acc: Vec<String> = acc.iter().filter(|(_, v)| **v > 0).map(|((pi, sd), v)| format!("{pi}.{sd}:{v}")).collect();
-                    rec.push(format!("@outs={}", join(&outs, ",")));
-                    rec.push(format!("@acc={}", join(&acc, ",")));
+                    let (sw, st) = scan_swaps(w, resp, false);
+                    swaps = sw;
+                    stage_of_swap = st;
+                    let (outs, acc) = outs_and_acc(&swaps, &stage_of_swap);
+                    rec.push(format!("@outs={outs}"));
+                    rec.push(format!("@acc={acc}"));
                 } else {
                     rec.push("@outs=-".into());
                     rec.push("@acc=-".into());
@@ -956,6 +1028,29 @@ impl Feeflow {
                     &[],
                 )
             }
+            "collect" | "aggregate" => {
+                // CollectFees / AggregateFees sent to the collector directly (not the self-calls of ForwardFees)
+                let Some(ff) = w.fees_for(args) else { return ("bad-op".into(), vec![]) };
+                let o = if op == "collect" {
+                    exec(&mut w.app, &sa, &w.col.clone(), &fc::ExecuteMsg::CollectFees { collect_fees_for: ff }, &[])
+                } else {
+                    exec(&mut w.app, &sa, &w.col.clone(), &fc::ExecuteMsg::AggregateFees { aggregate_fees_for: ff }, &[])
+                };
+                if op == "aggregate" {
+                    if let Outcome::Ok(resp) = &o {
+                        let (sw, st) = scan_swaps(w, resp, true);
+                        swaps = sw;
+                        stage_of_swap = st;
+                        let (outs, acc) = outs_and_acc(&swaps, &stage_of_swap);
+                        rec.push(format!("@outs={outs}"));
+                        rec.push(format!("@acc={acc}"));
+                    } else {
+                        rec.push("@outs=-".into());
+                        rec.push("@acc=-".into());
+                    }
+                }
+                o
+            }
             _ => return ("bad-op".into(), vec![]),
         };
         let post = w.observe();
@@ -999,7 +1094,17 @@ impl Feeflow {
             if op == "fwd" {
                 mon.check("C10", "forward_auth", true, || String::new());
             }
+            if op == "collect" || op == "aggregate" {
+                mon.stat(&format!("direct_{op}_{}_{o3}", args.first().copied().unwrap_or("?")));
+                mon.stat(&format!("direct_{op}_by_{}_{o3}", sender_class(sender)));
+                if op == "aggregate" && matches!(args.first().copied(), Some("pool") | Some("vault")) {
+                    mon.check("C10", "direct_aggregate_rejects_contracts", true, || String::new());
+                }
+            }
             return;
+        }
+        if op == "collect" || op == "aggregate" {
+            Self::monitor_direct(w, mon, pre, post, sender, op, args, swaps);
         }
         // ---- C10 forward_auth: nobody but the distributor may trigger forwarding
         if op == "fwd" {
@@ -1175,6 +1280,166 @@ impl Feeflow {
                     );
                 }
             }
+        }
+    }
+
+    /// C10 on a successful CollectFees / AggregateFees sent to the collector directly: the collection moves
+    /// exactly the collectable pending fees of the named pools / vaults into the collector, the aggregation
+    /// only converts collector balances through registered routes; nothing else changes.
+    #[allow(clippy::too_many_arguments)]
+    fn monitor_direct(w: &World, mon: &mut Monitor, pre: &Obs, post: &Obs, sender: &str, op: &str, args: &[&str], swaps: &[SwapEv]) {
+        let d = |s: String| move || s;
+        let kind = args.first().copied().unwrap_or("?");
+        let k = args.get(1).and_then(|x| x.parse::<usize>().ok());
+        mon.stat(&format!("direct_{op}_{kind}_ok"));
+        mon.stat(&format!("direct_{op}_by_{}_ok", sender_class(sender)));
+        // distributor, DAO, epochs, take-rate history, bonders, registry, configuration: untouched
+        let rest_same = pre.grace == post.grace
+            && pre.dbal == post.dbal
+            && pre.dao == post.dao
+            && pre.eps == post.eps
+            && pre.trh == post.trh
+            && pre.ub == post.ub
+            && pre.cl == post.cl
+            && pre.reg == post.reg
+            && pre.on == post.on
+            && pre.rt == post.rt
+            && pre.rate == post.rate
+            && pre.active == post.active
+            && pre.dao_set == post.dao_set;
+        mon.check(
+            "C10",
+            "direct_touches_nothing_else",
+            rest_same,
+            d(format!("direct {op} {kind} by {sender} changed the distributor / DAO / epochs / configuration:\n pre  {}\n post {}", pre.line(), post.line())),
+        );
+        if op == "collect" {
+            let mut moved = vec![0u128; ASSETS.len()];
+            for (i, a) in w.vault_assets.iter().enumerate() {
+                let named = kind == "vfac" || (kind == "vault" && k == Some(i));
+                if named {
+                    mon.check("C10", "direct_collect_exact", post.vp[i] == 0, d(format!("direct collect {kind}: vault {i} still has {} pending (had {})", post.vp[i], pre.vp[i])));
+                    moved[*a] += pre.vp[i];
+                    mon.stat(match pre.vp[i] {
+                        0 => "dcol_vault_pending_zero",
+                        x if x < THRESH => "dcol_vault_pending_lt_1000",
+                        x if x == THRESH => "dcol_vault_pending_eq_1000",
+                        _ => "dcol_vault_pending_gt_1000",
+                    });
+                } else {
+                    mon.check("C10", "direct_collect_exact", post.vp[i] == pre.vp[i], d(format!("direct collect {kind}: vault {i} was not named but its pending went {} -> {}", pre.vp[i], post.vp[i])));
+                }
+            }
+            for (i, (a, b)) in POOLS.iter().enumerate() {
+                // a factory page lists the registered pairs only; a pair named as a contract needs no listing
+                let named = (kind == "pfac" && pre.reg[i]) || (kind == "pool" && k == Some(i));
+                let sides = [(0usize, *a, pre.pp[i].0, post.pp[i].0), (1usize, *b, pre.pp[i].1, post.pp[i].1)];
+                for (sd, asset, before, after) in sides {
+                    if named && before > THRESH {
+                        mon.check("C10", "direct_collect_exact", after == 0, d(format!("direct collect {kind}: pool {i} side {sd}: pending {before} -> {after}, expected 0")));
+                        moved[asset] += before;
+                        mon.stat("dcol_pool_pending_gt_1000");
+                    } else {
+                        mon.check("C10", "direct_collect_exact", after == before, d(format!("direct collect {kind}: pool {i} side {sd}: uncollectable / unnamed pending {before} -> {after}")));
+                        if kind == "pfac" || (kind == "pool" && k == Some(i)) {
+                            mon.stat(if before == 0 {
+                                "dcol_pool_pending_zero"
+                            } else if !named {
+                                "dcol_pool_pending_unregistered"
+                            } else if before == THRESH {
+                                "dcol_pool_pending_eq_1000"
+                            } else {
+                                "dcol_pool_pending_lt_1000"
+                            });
+                        }
+                    }
+                }
+                if kind == "pool" && k == Some(i) && !pre.reg[i] {
+                    mon.stat("dcol_named_unregistered_pool");
+                }
+            }
+            for i in 0..ASSETS.len() {
+                mon.check(
+                    "C10",
+                    "direct_collect_exact",
+                    post.cbal[i] == pre.cbal[i] + moved[i],
+                    d(format!("direct collect {kind}: collector {} {} -> {} but {} left the named pools / vaults", ASSETS[i], pre.cbal[i], post.cbal[i], moved[i])),
+                );
+            }
+            mon.stat(if moved.iter().any(|m| *m > 0) { "dcol_moved_something" } else { "dcol_moved_nothing" });
+        } else {
+            mon.check(
+                "C10",
+                "direct_aggregate_rejects_contracts",
+                kind == "vfac" || kind == "pfac",
+                d(format!("AggregateFees for `{kind}` ({}) sent by {sender} was accepted", args.join(" "))),
+            );
+            let mut acc: BTreeMap<(usize, usize), u128> = BTreeMap::new();
+            for s in swaps {
+                *acc.entry((s.pool, s.ask_side)).or_insert(0) += s.pfee;
+            }
+            // pending fees: only what the aggregation swaps themselves accrued
+            let mut pend_ok = pre.vp == post.vp;
+            for i in 0..POOLS.len() {
+                let a0 = *acc.get(&(i, 0)).unwrap_or(&0);
+                let a1 = *acc.get(&(i, 1)).unwrap_or(&0);
+                pend_ok &= post.pp[i] == (pre.pp[i].0 + a0, pre.pp[i].1 + a1);
+            }
+            mon.check("C10", "direct_aggregate_only_converts", pend_ok, d(format!("direct aggregate {kind}: pending fees changed beyond what its swaps accrued: pp {:?} -> {:?}, vp {:?} -> {:?}", pre.pp, post.pp, pre.vp, post.vp)));
+            let cand = |i: usize| -> bool {
+                if kind == "vfac" {
+                    w.vault_assets.contains(&i)
+                } else {
+                    POOLS.iter().enumerate().any(|(pi, (a, b))| pre.reg[pi] && (*a == i || *b == i))
+                }
+            };
+            let mut n_swapped = 0;
+            for i in 0..ASSETS.len() {
+                if i == DIST {
+                    continue;
+                }
+                let have = pre.cbal[i];
+                let touched = post.cbal[i] != have;
+                mon.check(
+                    "C10",
+                    "direct_aggregate_only_converts",
+                    post.cbal[i] == have || post.cbal[i] == 0,
+                    d(format!("direct aggregate {kind}: collector {} {have} -> {} (neither untouched nor swapped in full)", ASSETS[i], post.cbal[i])),
+                );
+                mon.check(
+                    "C10",
+                    "direct_aggregate_only_converts",
+                    !touched || (have > THRESH && pre.rt[i] != 0 && cand(i)),
+                    d(format!("direct aggregate {kind}: collector {} ({have}) was swapped although it is below the threshold, has no route (rt {}) or is no asset of the named factory", ASSETS[i], pre.rt[i])),
+                );
+                if touched {
+                    n_swapped += 1;
+                }
+                mon.stat(if touched {
+                    "dagg_swapped"
+                } else if have == 0 {
+                    "dagg_zero"
+                } else if have < THRESH {
+                    "dagg_untouched_lt_1000"
+                } else if have == THRESH {
+                    "dagg_untouched_eq_1000"
+                } else if !cand(i) {
+                    "dagg_untouched_not_candidate"
+                } else if pre.rt[i] == 0 {
+                    "dagg_untouched_no_route"
+                } else {
+                    "dagg_untouched_sim_failed"
+                });
+            }
+            let swapped_in: u128 = swaps.iter().filter(|s| s.to_collector).map(|s| s.ret).sum();
+            let chains = swaps.iter().filter(|s| s.to_collector).count();
+            mon.check("C10", "direct_aggregate_only_converts", chains == n_swapped, d(format!("direct aggregate {kind}: {n_swapped} assets left the collector but {chains} router swaps paid it")));
+            mon.check(
+                "C10",
+                "direct_aggregate_only_converts",
+                post.cbal[DIST] >= pre.cbal[DIST] && post.cbal[DIST] == pre.cbal[DIST] + swapped_in,
+                d(format!("direct aggregate {kind}: collector {} {} -> {} but the router paid {swapped_in}", ASSETS[DIST], pre.cbal[DIST], post.cbal[DIST])),
+            );
         }
     }
 
@@ -1547,7 +1812,7 @@ impl Feeflow {
         }
         let u = rng.below(4); // u4 never bonds
         let k = rng.below(100);
-        let body = if k < 22 {
+        let body = if k < 21 {
             // swap: sizes around the pair's collect threshold and free ones
             let pi = rng.below(3) as usize;
             let side = rng.below(2) as usize;
@@ -1564,7 +1829,37 @@ impl Feeflow {
                 _ => rng.log_uniform(28),
             };
             format!("trader swap {pi} {side} {}", amt.max(1))
-        } else if k < 34 {
+        } else if k < 27 {
+            // CollectFees / AggregateFees sent to the collector directly by anybody, in mid-history
+            let who = match rng.below(4) {
+                0 => "admin".to_string(),
+                1 => "stranger".to_string(),
+                2 => "trader".to_string(),
+                _ => format!("u{}", rng.below(NUSERS as u64)),
+            };
+            // collected fees stay in the collector until the next aggregation: collect first, then aggregate
+            let has_bal = (0..ASSETS.len()).any(|i| i != DIST && last.cbal[i] > 0);
+            if rng.chance(if has_bal { 1 } else { 2 }, 3) {
+                let target = match rng.below(20) {
+                    0..=5 => "vfac".to_string(),
+                    6..=12 => "pfac".to_string(),
+                    13..=15 => format!("pool {}", rng.below(3)),
+                    16..=17 => format!("vault {}", rng.below(w.vaults.len().max(1) as u64)),
+                    18 => "xfac".to_string(),
+                    _ => format!("{} 7", if rng.chance(1, 2) { "pool" } else { "vault" }),
+                };
+                format!("{who} collect {target}")
+            } else {
+                let target = match rng.below(20) {
+                    0..=7 => "vfac".to_string(),
+                    8..=16 => "pfac".to_string(),
+                    17 => format!("pool {}", rng.below(3)),
+                    18 => format!("vault {}", rng.below(w.vaults.len().max(1) as u64)),
+                    _ => "xfac".to_string(),
+                };
+                format!("{who} aggregate {target}")
+            }
+        } else if k < 38 {
             let vi = rng.below(w.vaults.len().max(1) as u64);
             let amt = match rng.below(5) {
                 0 => rng.range(1, 5000) as u128,
@@ -1574,7 +1869,7 @@ impl Feeflow {
                 _ => rng.log_uniform(24),
             };
             format!("admin loan {vi} {amt}")
-        } else if k < 56 {
+        } else if k < 58 {
             // claim: mostly somebody with something claimable
             let cands: Vec<usize> = (0..NUSERS).filter(|i| !last.cl[*i].is_empty()).collect();
             if !cands.is_empty() && rng.chance(4, 5) {
@@ -1584,7 +1879,7 @@ impl Feeflow {
             } else {
                 format!("u{} claim", rng.below(NUSERS as u64))
             }
-        } else if k < 68 {
+        } else if k < 69 {
             let amt = match rng.below(4) {
                 0 => rng.range(1, 1000) as u128,
                 1 => 1_000_000,
